@@ -280,7 +280,7 @@ def main(argv=None):
                canaries_refuted=canaries, conformance_arrays_compared=conf_cases, numpy_model_battery_cases=bn,
                known_findings_reproduced=sorted(set(kf_reproduced)),
                undecided=len(undecided), samples=samples or [dict(note='no proved obligation in this run')],
-               explanation=getattr(pm, 'EXPLANATION', ''),
+               explanation=getattr(pm, 'EXPLANATION', '') or (getattr(pm, 'LEVEL_TEXT', '') + ' -- ' + getattr(pm, 'LEVEL_NOTE', '')),
                not_machine_checked=getattr(pm, 'NOT_MACHINE_CHECKED', []),
                bounded_standins=getattr(pm, 'BOUNDED', []) + bounded_runs,
                exhaustive=False, evaluations=max(1, n_obl), distinct_nontrivial=n_solver,
